@@ -432,6 +432,10 @@ func (m *Manager) FlushMemTables() error {
 	m.flushMu.Lock()
 	defer m.flushMu.Unlock()
 
+	if m.closed.Load() {
+		return ErrStorageClosed
+	}
+
 	verifhook.At("storage.flush.begin")
 	// Track operation
 	m.stats.TrackOperation(stats.OpFlush)
@@ -648,6 +652,14 @@ func (m *Manager) Close() error {
 	if m.closed.Swap(true) {
 		return nil // Already closed
 	}
+
+	// Wait for a flush in progress (the background goroutine publishes new
+	// SSTable readers while it runs; it starts no further flush once the
+	// closed flag is set) and take the engine lock for the shared state
+	m.flushMu.Lock()
+	defer m.flushMu.Unlock()
+	m.mu.Lock()
+	defer m.mu.Unlock()
 
 	// Close the WAL using atomic access
 	currentWAL := m.getWAL()
